@@ -203,7 +203,7 @@ func (mc *c02Machine) actions(rt *rapid.T) map[string]func(*rapid.T) {
 			if !mc.canBatch {
 				rt.Skip("model has a fixed batch size")
 			}
-			n := rapid.IntRange(1, 4).Draw(rt, "otherN")
+			n := rapid.SampledFrom([]int{1, 1, 2, 2, 3, 3, 4, 9, 17}).Draw(rt, "otherN")
 			if n != mc.lastN() {
 				mc.flags["batch-change"] = true
 			}
